@@ -31,7 +31,20 @@ func (rr *RoundRobinStrategy) NextBackend(r *http.Request) *Backend {
 	}
 
 	// Get the next index in a thread-safe way
-	idx := atomic.AddUint64(&rr.current, 1) % uint64(len(rr.backends))
+	n := uint64(len(rr.backends))
+	idx := atomic.AddUint64(&rr.current, 1) % n
+
+	// Skip backends that are marked unhealthy: scan the rotation once, starting
+	// at the drawn slot, so that a healthy backend is found whenever there is one.
+	for i := uint64(0); i < n; i++ {
+		backend := rr.backends[(idx+i)%n]
+		backend.Mutex.RLock()
+		healthy := backend.IsHealthy
+		backend.Mutex.RUnlock()
+		if healthy {
+			return backend
+		}
+	}
 	return rr.backends[idx]
 }
 
